@@ -228,7 +228,7 @@ class HistoryJudge:
         self.invalid = what                     # the most recent invalid call names the signature
 
 
-def judge_history(chk, case, body, is_invalid_event):
+def judge_history(chk, case, body, is_invalid_event, prefix):
     H = HistoryJudge(chk)
     try:
         body(H, case)
@@ -246,7 +246,7 @@ def judge_history(chk, case, body, is_invalid_event):
     if H.invalid is not None:
         stripped = dict(case, history=[e for e in case["history"] if not is_invalid_event(e)])
         sub = HistoryJudge(Check(PID, LEVEL, ENGINE, RULE, child=True))
-        with sub.chk.guard(("x",), stripped):
+        with sub.chk.guard(prefix, stripped):     # the same signature as a history that never had the invalid call
             body(sub, stripped)
         if sub.fails or sub.chk.violations:
             for sig, c, kw in sub.fails:           # wrong without the invalid call as well
@@ -290,7 +290,7 @@ def eval_prime(chk, case):
     if bad:
         via, g = bad[0]
         g = int(g)
-        if g == 1009 and want > 1009:
+        if g == 1009 and want > 1009 and int(RootSequence._get_largest_prime_lower_than_number(MAX_SIZE)) == 1009:
             how = "table_ends_at_1009"
         elif g < want and _IS_PRIME[g]:
             how = "smaller_prime_returned"
@@ -945,7 +945,7 @@ def fresh_user_bytes(N, root, op):
 
 
 def eval_seq_history(chk, case):
-    judge_history(chk, case, _seq_history_body, lambda i: SEQ_OPS[i][0] == "bad")
+    judge_history(chk, case, _seq_history_body, lambda i: SEQ_OPS[i][0] == "bad", ("shared_root_history",))
 
 
 def _seq_history_body(chk, case):
@@ -1049,7 +1049,8 @@ def est_event(N, D, ei):
 
 
 def eval_est_history(chk, case, cache):
-    judge_history(chk, case, lambda h, c: _est_history_body(h, c, cache), lambda e: e >= 5)
+    judge_history(chk, case, lambda h, c: _est_history_body(h, c, cache), lambda e: e >= 5,
+                  ("cazac_estimator", kind_info(case["kind"])[5], "history"))
 
 
 def _est_history_body(chk, case, cache):
@@ -1111,7 +1112,7 @@ def _est_history_body(chk, case, cache):
         kappa, c, scale = est_tolerance(ec, b)
         if shape_of(est) != shape_of(b["want"]) or not numerics.close(est, b["want"], kappa, c, scale_=scale):
             sub = Check(PID, LEVEL, ENGINE, RULE, child=True)
-            with sub.guard(("x",), ec):
+            with sub.guard(("cazac_estimator", variant), ec):
                 eval_est(sub, ec, cache)
             if not sub.violations:
                 chk.fail(("cazac_estimator", variant, "history", "not_exact_on_reused_object"), at,
@@ -1255,10 +1256,12 @@ def root_pool_unit(chk, unit):
     object equals the lone reference taken at the start, live objects and the module's tables stay as they were"""
     _, maxlen = unit
     ref = {}
-    for spec in ROOT_POOL:
+    for i, spec in enumerate(ROOT_POOL):
         if spec[0] == "ok":
-            o = make_root(spec)
-            ref[spec] = (np.asarray(o.seq_array()).tobytes(), int(o.size), int(o.Nzc))
+            # a VALID construction: an exception of the implementation is a violation (replayable one-event history)
+            with chk.guard(("root_pool_history",), {"part": "HR", "history": [i]}):
+                o = make_root(spec)
+                ref[spec] = (np.asarray(o.seq_array()).tobytes(), int(o.size), int(o.Nzc))
     tables0 = data_tables_digest()
     for n in range(1, maxlen + 1):
         for hist in itertools.permutations(range(len(ROOT_POOL)), n):
@@ -1274,7 +1277,8 @@ def root_public_state(o):
 
 
 def eval_root_pool(chk, case, ref=None, tables0=None):
-    judge_history(chk, case, lambda h, c: _root_pool_body(h, c, ref, tables0), lambda i: ROOT_POOL[i][0] == "bad")
+    judge_history(chk, case, lambda h, c: _root_pool_body(h, c, ref, tables0), lambda i: ROOT_POOL[i][0] == "bad",
+                  ("root_pool_history",))
 
 
 def _root_pool_body(chk, case, ref=None, tables0=None):
@@ -1283,8 +1287,13 @@ def _root_pool_body(chk, case, ref=None, tables0=None):
         ref = {}
         for spec in ROOT_POOL:
             if spec[0] == "ok":
-                o = make_root(spec)
-                ref[spec] = (np.asarray(o.seq_array()).tobytes(), int(o.size), int(o.Nzc))
+                try:
+                    o = make_root(spec)
+                    ref[spec] = (np.asarray(o.seq_array()).tobytes(), int(o.size), int(o.Nzc))
+                except (KeyboardInterrupt, SystemExit, Broken):
+                    raise
+                except Exception:       # noqa  -- reported when the history itself constructs this object
+                    pass
         tables0 = data_tables_digest()
     chk.count("eval_root_pool_histories")
     live = []
@@ -1294,7 +1303,7 @@ def _root_pool_body(chk, case, ref=None, tables0=None):
         if spec[0] == "ok":
             o = make_root(spec)
             got = (np.asarray(o.seq_array()).tobytes(), int(o.size), int(o.Nzc))
-            if got != ref[spec]:
+            if spec in ref and got != ref[spec]:
                 chk.fail(("root_pool_history", "new_object_differs_from_lone_reference"), at,
                          observed="size %d Nzc %d" % got[1:], expected="size %d Nzc %d, bit-identical" % ref[spec][1:],
                          msg="RootSequence%r after %r" % (spec[1:], [ROOT_POOL[j] for j in hist[:step]]))
@@ -1368,7 +1377,11 @@ def eval_est_pool(chk, case, cache, acts=None):
 def est_pool_unit(chk, unit, cache):
     _, maxlen = unit
     off_h, off_i = common.seed_offset(TAG_H), common.seed_offset(TAG_I)
-    acts = est_pool_prepare(cache, off_h, off_i)
+    acts = None
+    with chk.guard(("cazac_estimator", "pool"), {"part": "HP", "history": [], "off_h": off_h, "off_i": off_i}):
+        acts = est_pool_prepare(cache, off_h, off_i)
+    if acts is None:
+        return
     tables0 = data_tables_digest()
     for oi, ec, b, K, _, _ in acts:            # the lone results themselves are right
         with chk.guard(("cazac_estimator", b["variant"]), ec):
@@ -1708,7 +1721,22 @@ def all_units(tier):
     return ex + sh + ls + zc + rr + es
 
 
+def _as_list(x):
+    return [_as_list(e) for e in x] if isinstance(x, (tuple, list)) else x
+
+
+def _as_tuple(x):
+    return tuple(_as_tuple(e) for e in x) if isinstance(x, (tuple, list)) else x
+
+
 def run_unit(chk, unit, tools, cache):
+    """safety net: whatever escapes the per-case guards of a unit (a preparation step of the unit calling the
+    implementation with a VALID request) becomes a violation with the unit as replayable case; the shard continues"""
+    with chk.guard(("unit", unit[0]), {"part": "unit", "unit": _as_list(unit)}):
+        _run_unit(chk, unit, tools, cache)
+
+
+def _run_unit(chk, unit, tools, cache):
     what = unit[0]
     if what == "zc":
         for size in unit[1]:
@@ -1909,6 +1937,8 @@ def replay(case, chk: Check):
         pre = ("cazac_estimator", variant) + ((c["layout"],) if c.get("layout", "c") != "c" else ())
         with chk.guard(pre, c):
             eval_est(chk, c, cache)
+    elif part == "unit":
+        run_unit(chk, _as_tuple(case["unit"]), tools, cache)
     elif part == "HR":
         c = {"part": "HR", "history": list(case["history"])}
         with chk.guard(("root_pool_history",), c):
